@@ -3,7 +3,7 @@
 //! Requests
 //!   c05.enc  <kind> <magic> <tokens…>   build the value, `Message::write`, `size()`, `Message::read` it back
 //!   c05.penc <type> <tokens…>           build the value, `T::write`, `size()`, `T::read` it back
-//!   c05.dec  <label> <magic> <hex>      `Message::read`, print the value, `write`, `read`, `write` (fixpoint)
+//!   c05.dec  <label> <magic> <hex>      `Message::read`, print the value, `write`, `read`, `write` (fixpoint -> class `ok`, else `nofix`)
 //!   c05.pdec <type> <hex>               `T::read`, print the value, `write`, `read`, `write`
 //!
 //! Value tokens (shared with lean/CG/Drv/C05.lean): the fields in wire order; integers in decimal,
@@ -90,6 +90,21 @@ impl<'r> Lay<'r> {
     fn count(&mut self, n: usize) { self.var(n as u64); }
     fn raw(&mut self, b: &[u8]) { self.toks.push(format!("x{}", hex::encode(b))); self.bytes.extend(b); }
     fn vbytes(&mut self, b: &[u8]) { self.varint_bytes(b.len() as u64); self.raw(b); }
+    /// a string field; in non-canonical mode sometimes replaced by text around a boundary / ill-formed UTF-8 sequence
+    fn vstr(&mut self, s: &str) {
+        if self.odd(1, 6) {
+            const SEQS: [&[u8]; 26] = [&[0xc0, 0x80], &[0xc1, 0xbf], &[0xc2, 0x80], &[0xdf, 0xbf], &[0xe0, 0x80, 0x80], &[0xe0, 0x9f, 0xbf], &[0xe0, 0xa0, 0x80],
+                &[0xed, 0xa0, 0x80], &[0xed, 0x9f, 0xbf], &[0xee, 0x80, 0x80], &[0xef, 0xbf, 0xbf], &[0xf0, 0x80, 0x80, 0x80], &[0xf0, 0x8f, 0xbf, 0xbf], &[0xf0, 0x90, 0x80, 0x80],
+                &[0xf4, 0x8f, 0xbf, 0xbf], &[0xf4, 0x90, 0x80, 0x80], &[0xf5, 0x80, 0x80, 0x80], &[0x80], &[0xbf], &[0xc2], &[0xe2, 0x82], &[0xf0, 0x9f, 0x98], &[0xc2, 0x41],
+                &[0xe2, 0x28, 0xa1], &[0xff], &[0xf1, 0x80, 0x80, 0x80]];
+            let k = (self.rnd() as usize) % SEQS.len();
+            let mut b: Vec<u8> = Vec::new();
+            for _ in 0..(self.rnd() % 3) { b.push(b'a'); }
+            b.extend(SEQS[k]);
+            for _ in 0..(self.rnd() % 3) { b.push(b'z'); }
+            self.vbytes(&b);
+        } else { self.vbytes(s.as_bytes()); }
+    }
 }
 
 fn lay_outpoint(v: &OutPoint, l: &mut Lay) { l.raw(&v.hash.0); l.u32(v.index); }
@@ -109,7 +124,7 @@ fn lay_nodeaddr(v: &NodeAddr, l: &mut Lay) { l.u64(v.services); l.raw(&v.ip.octe
 fn lay_nodeaddrex(v: &NodeAddrEx, l: &mut Lay) { l.u32(v.last_connected_time); lay_nodeaddr(&v.addr, l); }
 fn lay_version(v: &Version, l: &mut Lay) {
     l.u32(v.version); l.u64(v.services); l.i64(v.timestamp); lay_nodeaddr(&v.recv_addr, l); lay_nodeaddr(&v.tx_addr, l); l.u64(v.nonce);
-    l.vbytes(v.user_agent.as_bytes()); l.i32(v.start_height);
+    l.vstr(&v.user_agent); l.i32(v.start_height);
     // relay: any byte other than 1 reads as false
     l.t(v.relay as u8);
     let rb = if v.relay { 1 } else if l.odd(1, 2) { let x = l.rnd(); if x == 1 { 2 } else { x } } else { 0 };
@@ -133,16 +148,16 @@ fn lay_block(v: &Block, l: &mut Lay) { lay_header(&v.header, l); l.count(v.txns.
 fn lay_merkleblock(v: &MerkleBlock, l: &mut Lay) { lay_header(&v.header, l); l.u32(v.total_transactions); l.count(v.hashes.len()); for h in &v.hashes { l.raw(&h.0); } l.vbytes(&v.flags); }
 fn lay_filterload(v: &FilterLoad, l: &mut Lay) { l.vbytes(&v.bloom_filter.filter); l.u32(v.bloom_filter.num_hash_funcs as u32); l.u32(v.bloom_filter.tweak); l.u8(v.flags); }
 fn lay_filteradd(v: &FilterAdd, l: &mut Lay) { l.vbytes(&v.data); }
-fn lay_reject(v: &Reject, l: &mut Lay) { l.vbytes(v.message.as_bytes()); l.u8(v.code); l.vbytes(v.reason.as_bytes()); l.raw(&v.data); }
+fn lay_reject(v: &Reject, l: &mut Lay) { l.vbytes(v.message.as_bytes()); l.u8(v.code); l.vstr(&v.reason); l.raw(&v.data); }
 fn lay_protoconf(v: &Protoconf, l: &mut Lay) {
     l.var(v.version); l.u32(v.max_recv_payload_length);
-    match &v.stream_policies { None => l.t(0), Some(s) => { l.t(1); if v.version > 1 { l.vbytes(s.as_bytes()); } else { l.toks.push(format!("x{}", hex::encode(s.as_bytes()))); } } }
+    match &v.stream_policies { None => l.t(0), Some(s) => { l.t(1); if v.version > 1 { l.vstr(s); } else { l.toks.push(format!("x{}", hex::encode(s.as_bytes()))); } } }
 }
 fn lay_authch(v: &Authch, l: &mut Lay) { l.i32(v.version); l.u32(v.message_length); l.raw(&v.message); }
 fn lay_assoc(a: &[u8], l: &mut Lay) { l.bytes.push(a.len() as u8); l.raw(a); }
 fn lay_createstrm(v: &Createstrm, l: &mut Lay) {
     lay_assoc(&v.association_id, l); l.u8(v.stream_type);
-    if !v.stream_policy.is_empty() { l.vbytes(v.stream_policy.as_bytes()); }
+    if !v.stream_policy.is_empty() { l.vstr(&v.stream_policy); }
     else { l.toks.push("x".into()); if l.odd(1, 2) { l.varint_bytes(0); } }
 }
 fn lay_streamack(v: &Streamack, l: &mut Lay) { lay_assoc(&v.association_id, l); l.u8(v.stream_type); }
@@ -347,7 +362,7 @@ fn dec_msg(bytes: &[u8], magic: [u8; 4]) -> String {
                 Ok(m2) => { let mut b3 = Vec::new(); m2 == m && c2.position() as usize == b2.len() && m2.write(&mut b3, magic).is_ok() && b3 == b2 }
                 Err(_) => false,
             };
-            format!("ok:{}:{}:{}:{}:{}", kind, digest_s(&toks), digest_b(&b2), fix as u8, pos)
+            format!("{}:{}:{}:{}:{}", if fix { "ok" } else { "nofix" }, kind, digest_s(&toks), digest_b(&b2), pos)
         }
     }
 }
@@ -377,7 +392,7 @@ fn pdec<T: Serializable<T> + PartialEq>(bytes: &[u8], lay: fn(&T, &mut Lay)) -> 
                 Ok(v2) => { let mut b3 = Vec::new(); v2 == v && c2.position() as usize == b2.len() && v2.write(&mut b3).is_ok() && b3 == b2 }
                 Err(_) => false,
             };
-            format!("ok:{}:{}:{}:{}", digest_s(&l.toks.join(",")), digest_b(&b2), fix as u8, pos)
+            format!("{}:{}:{}:{}", if fix { "ok" } else { "nofix" }, digest_s(&l.toks.join(",")), digest_b(&b2), pos)
         }
     }
 }
@@ -499,13 +514,13 @@ fn g_outpoint(g: &mut G) -> OutPoint { OutPoint { hash: g.h(), index: g.u32() } 
 fn g_txin(g: &mut G) -> TxIn { TxIn { prev_output: g_outpoint(g), unlock_script: Script(g.vb()), sequence: g.u32() } }
 fn g_txout(g: &mut G) -> TxOut { TxOut { satoshis: g.i64(), lock_script: Script(g.vb()) } }
 fn g_tx(g: &mut G) -> Tx { let ni = g.cnt(); let no = g.cnt(); Tx { version: g.u32(), inputs: g.list(ni, g_txin), outputs: g.list(no, g_txout), lock_time: g.u32() } }
-/// a transaction `PrefilledTransaction::validate` mostly accepts; its output total never exceeds i64
+/// a transaction `PrefilledTransaction::validate` mostly accepts (amounts around 0, MAX_SATOSHIS and the i64 limits)
 fn g_vtx(g: &mut G) -> Tx {
     let mut t = g_tx(g);
     if g.r.chance(9, 10) && t.inputs.is_empty() { t.inputs.push(g_txin(g)); }
     if g.r.chance(9, 10) && t.outputs.is_empty() { t.outputs.push(g_txout(g)); }
     t.outputs.truncate(4);
-    for o in t.outputs.iter_mut() { o.satoshis = *g.r.pick(&[0i64, 0, 1, 1, 1000, 5_000_000_000, MAX_SATOSHIS / 4, MAX_SATOSHIS, MAX_SATOSHIS + 1, -1]); if g.small { o.satoshis = o.satoshis.clamp(0, 1); } }
+    for o in t.outputs.iter_mut() { o.satoshis = *g.r.pick(&[0i64, 0, 1, 1, 1000, 5_000_000_000, MAX_SATOSHIS / 4, MAX_SATOSHIS / 2, MAX_SATOSHIS / 2 + 1, MAX_SATOSHIS, MAX_SATOSHIS + 1, -1, i64::MAX, i64::MIN]); if g.small { o.satoshis = o.satoshis.clamp(0, 1); } }
     t
 }
 fn g_header(g: &mut G) -> BlockHeader { BlockHeader { version: g.u32(), prev_hash: g.h(), merkle_root: g.h(), timestamp: g.u32(), bits: g.u32(), nonce: g.u32() } }
@@ -533,16 +548,25 @@ fn g_filterload(g: &mut G) -> FilterLoad {
 fn g_filteradd(g: &mut G) -> FilterAdd { let n = if g.r.chance(1, 4) { *g.r.pick(&[519usize, 520, 521]) } else { g.len() }; FilterAdd { data: g.bytes(n) } }
 fn g_reject(g: &mut G) -> Reject {
     let m = match g.r.below(6) { 0 => "block".to_string(), 1 => "tx".to_string(), 2 => "version".to_string(), 3 => String::new(), 4 => "blocks".to_string(), _ => g.string() };
-    let data = if m == "block" || m == "tx" { g.bytes(32) } else { vec![] };
+    let mut data = if m == "block" || m == "tx" { g.bytes(32) } else { vec![] };
+    // out of range (not a protocol value): data inconsistent with the message name
+    if g.r.chance(1, 12) { data = if data.is_empty() { g.bytes(32) } else if g.r.chance(1, 2) { vec![] } else { g.bytes(31) }; }
     Reject { message: m, code: g.u8(), reason: g.string(), data }
 }
 fn g_protoconf(g: &mut G) -> Protoconf {
     // in range: policies present iff version > 1 (otherwise `write` panics or drops them)
     let version = match g.r.below(10) { 0 => 0, 1 => 3, 2 => g.u64().max(2), _ => 1 + g.r.below(2) };
     let max = match g.r.below(5) { 0 => 1_048_575, 1 => 1_048_576, 2 => g.u32(), _ => 1_048_576 + g.r.below(1000) as u32 };
-    Protoconf { version, max_recv_payload_length: max, stream_policies: if version > 1 { Some(g.string()) } else { None } }
+    // (version <= 1 with policies is out of range: `write` drops them; version > 1 without policies makes `write` panic and is never generated)
+    let pol = if version > 1 || g.r.chance(1, 12) { Some(g.string()) } else { None };
+    Protoconf { version, max_recv_payload_length: max, stream_policies: pol }
 }
-fn g_authch(g: &mut G) -> Authch { let m = g.vb(); Authch { version: if g.r.chance(4, 5) { 1 } else { g.i32() }, message_length: m.len() as u32, message: m } }
+fn g_authch(g: &mut G) -> Authch {
+    let m = g.vb();
+    // out of range once in a while: the explicit length disagrees with the message
+    let len = if g.r.chance(1, 12) { (m.len() as u32).wrapping_add(*g.r.pick(&[1u32, 2, 3])) } else { m.len() as u32 };
+    Authch { version: if g.r.chance(4, 5) { 1 } else { g.i32() }, message_length: len, message: m }
+}
 fn g_stream_type(g: &mut G) -> u8 { if g.r.chance(4, 5) { 1 + g.r.below(4) as u8 } else { *g.r.pick(&[0u8, 5, 255]) } }
 fn g_createstrm(g: &mut G) -> Createstrm { let e = g.r.chance(1, 8); Createstrm { association_id: g_assoc(g, e), stream_type: g_stream_type(g), stream_policy: if g.r.chance(1, 3) { String::new() } else { g.string() } } }
 fn g_streamack(g: &mut G) -> Streamack { let e = g.r.chance(1, 8); Streamack { association_id: g_assoc(g, e), stream_type: g_stream_type(g) } }
@@ -694,7 +718,7 @@ fn cap_cases(r: &mut Rng, out: &mut Vec<String>) {
 pub fn gen(tier: &str, rng: &mut Rng, out: &mut Vec<String>) {
     let thorough = tier == "thorough";
     let mags = magics();
-    let (n_enc, n_penc, n_dec, n_pdec) = if thorough { (4000, 2500, 6000, 4000) } else { (220, 130, 330, 230) };
+    let (n_enc, n_penc, n_dec, n_pdec) = if thorough { (4000, 2500, 6000, 4000) } else { (320, 200, 480, 330) };
 
     // (1) value -> bytes, message level, every kind, every magic in turn
     for (ki, kind) in KINDS.iter().enumerate() {
